@@ -50,6 +50,7 @@ POOL = [
     ("import", "macos.os"),  # an external whose name ends like another external's name begins
     ("import", "os.path"),
     ("import", "x.y.z"),
+    ("import", "x.y.w"),  # a second external below the same parent package
     ("import", "handlers"),
     ("import", "topx"),
     ("import", "topx.m"),
